@@ -29,7 +29,7 @@ ASSUMPTIONS = ['CachedMethods compatibility shim',
                'pack/unpack are the .pyx sources executed by pyxsan (source semantics, not a compiled binary)',
                'bytes are compared for coordinates exactly representable in half precision; other coordinates within one ulp']
 CONFIG = {
-    'quick': {'shards': 16, 'budget_s': 200, 'n_corpus': 900, 'n_si': 1200, 'n_boundary': 2, 'n_rx': 100, 'big': False,
+    'quick': {'shards': 16, 'budget_s': 300, 'n_corpus': 900, 'n_si': 1200, 'n_boundary': 2, 'n_rx': 100, 'big': False,
               'floors': {'evaluations': 1200, 'distinct_nontrivial': 400, 'roundtrips': 900, 'bytes.compared-with-reference': 750,
                          'si.packs': 350, 'reactions.roundtrips': 20, 'reactions.empty-role': 12, 'pyxsan.loads': 1000000,
                          'reactions.hypercoordinate': 40}},
